@@ -34,13 +34,20 @@ Holds(f, x, a, n) ==
        [] f = "ln"   -> LnOk(e)
        [] f = "exp"  -> ExpOk(e)                      \* C15
        [] f = "powi" -> PowiOk(e)
+       [] f = "pow"  -> PowOk(e)
 
+HoldsY(f, x, y, a) ==
+  LET e == [Ev(f, x, a, 0) EXCEPT !.n = 0] @@ [y |-> J(y)] IN
+  /\ a.k # "undef" /\ TotalOk(e) /\ WorkOk(e) /\ PowOk(e)
 Bad ==
   CASE fn = "sqrt" -> {x \in Vals : ~Holds("sqrt", x, Sqrt(ZI(x), lay), 0)}
     [] fn = "log2" -> {x \in Vals : ~Holds("log2", x, Log2(ZI(x), lay), 0)}
     [] fn = "ln"   -> {x \in Vals : ~Holds("ln", x, Ln(ZI(x), lay), 0)}
     [] fn = "exp"  -> {x \in Vals : ~Holds("exp", x, Exp(ZI(x), lay), 0)}
     [] fn = "exp_orig" -> {x \in Vals : ~Holds("exp", x, ExpOrig(ZI(x), lay), 0)}
+    \* exponents -2.5, -1, -0.5, 0.5, 1.5, 2, 3 (in units of the layout)
+    [] fn = "pow"  -> {x \in Vals : \E h \in {-5, -2, -1, 1, 3, 4, 6} :
+                          LET y == (h * ZToInt(MAOne(lay))) \div 2 IN ~HoldsY("pow", x, y, Pow(ZI(x), ZI(y), lay))}
     [] fn = "powi" -> {x \in Vals : \E n \in {0, 1, 2, 3, 5, 8, 13} : ~Holds("powi", x, Powi(ZI(x), n, lay), n)}
 Prop == IF Bad = {} THEN TRUE ELSE PrintT(<<"BAD", lay, fn, Bad>>) /\ FALSE
 =============================================================================
